@@ -95,6 +95,13 @@ func (s *OperationProcessor) Resolve(uniqueSuffix string, opts ...document.Resol
 		return nil, err
 	}
 
+	// an operation is unpublished if it came from the unpublished operation store (or was passed in without reference),
+	// not if the anchoring system happens to supply no canonical references
+	unpublished := make(map[*operation.AnchoredOperation]bool, len(unpublishedOps))
+	for _, op := range unpublishedOps {
+		unpublished[op] = true
+	}
+
 	// return all operations in response - versionId is considered just like view of information
 	rm := &protocol.ResolutionModel{PublishedOperations: publishedOps, UnpublishedOperations: unpublishedOps}
 
@@ -107,7 +114,7 @@ func (s *OperationProcessor) Resolve(uniqueSuffix string, opts ...document.Resol
 	// Ensure that all published 'create' operations are processed first (in case there are
 	// unpublished 'create' operations in the collection due to race condition).
 	sort.SliceStable(createOps, func(i, j int) bool {
-		return createOps[i].CanonicalReference != "" && createOps[j].CanonicalReference == ""
+		return !unpublished[createOps[i]] && unpublished[createOps[j]]
 	})
 
 	// apply 'create' operations first
@@ -128,7 +135,7 @@ func (s *OperationProcessor) Resolve(uniqueSuffix string, opts ...document.Resol
 	}
 
 	// next apply update ops since last 'full' transaction
-	filteredUpdateOps := getOpsWithTxnGreaterThanOrUnpublished(updateOps, rm.LastOperationTransactionTime, rm.LastOperationTransactionNumber)
+	filteredUpdateOps := getOpsAfterTxnOrUnpublished(updateOps, unpublished, rm.LastOperationTransactionTime, rm.LastOperationTransactionNumber)
 	if len(filteredUpdateOps) > 0 {
 		s.logger.Debug("Applying update operations after last full operation", logfields.WithTotal(len(filteredUpdateOps)),
 			logfields.WithSuffix(uniqueSuffix))
@@ -244,8 +251,13 @@ func (s *OperationProcessor) applyResolutionOptions(uniqueSuffix string, publish
 	var filteredPublishedOps []*operation.AnchoredOperation
 	var filteredUnpublishedOps []*operation.AnchoredOperation
 
+	isUnpublished := make(map[*operation.AnchoredOperation]bool, len(unpublished))
+	for _, op := range unpublished {
+		isUnpublished[op] = true
+	}
+
 	for _, op := range filteredOps {
-		if op.CanonicalReference == "" {
+		if isUnpublished[op] {
 			filteredUnpublishedOps = append(filteredUnpublishedOps, op)
 		} else {
 			filteredPublishedOps = append(filteredPublishedOps, op)
@@ -310,11 +322,25 @@ func splitOperations(ops []*operation.AnchoredOperation) (createOps, updateOps, 
 	return createOps, updateOps, fullOps
 }
 
+// getOpsWithTxnGreaterThanOrUnpublished takes an operation without canonical reference for an unpublished one.
 func getOpsWithTxnGreaterThanOrUnpublished(ops []*operation.AnchoredOperation, txnTime, txnNumber uint64) []*operation.AnchoredOperation {
+	unpublished := make(map[*operation.AnchoredOperation]bool)
+
+	for _, op := range ops {
+		if op.CanonicalReference == "" {
+			unpublished[op] = true
+		}
+	}
+
+	return getOpsAfterTxnOrUnpublished(ops, unpublished, txnTime, txnNumber)
+}
+
+func getOpsAfterTxnOrUnpublished(ops []*operation.AnchoredOperation, unpublished map[*operation.AnchoredOperation]bool,
+	txnTime, txnNumber uint64) []*operation.AnchoredOperation {
 	var selection []*operation.AnchoredOperation
 
 	for _, op := range ops {
-		if isOpWithTxnGreaterThanOrUnpublished(op, txnTime, txnNumber) {
+		if unpublished[op] || isOpWithTxnGreaterThan(op, txnTime, txnNumber) {
 			selection = append(selection, op)
 		}
 	}
@@ -322,11 +348,7 @@ func getOpsWithTxnGreaterThanOrUnpublished(ops []*operation.AnchoredOperation, t
 	return selection
 }
 
-func isOpWithTxnGreaterThanOrUnpublished(op *operation.AnchoredOperation, txnTime, txnNumber uint64) bool {
-	if op.CanonicalReference == "" {
-		return true
-	}
-
+func isOpWithTxnGreaterThan(op *operation.AnchoredOperation, txnTime, txnNumber uint64) bool {
 	if op.TransactionTime < txnTime {
 		return false
 	}
